@@ -204,15 +204,7 @@ func allMutators() []mutator {
 			return true
 		}},
 		{rule: ruleCertISD, apply: func(e *env, t *trcPlan, rng *rand.Rand) bool {
-			var other *gen.World
-			for _, w := range e.worlds {
-				if w != t.w {
-					other = w
-				}
-			}
-			if rng.IntN(2) == 0 {
-				other = e.worlds[(indexOfWorld(e, t.w)+1)%len(e.worlds)]
-			}
+			other := otherWorld(e, t.w, rng)
 			i := rng.IntN(len(t.p.Certs))
 			k := t.p.Certs[i].Spec.Kind
 			for tries := 0; tries < 20; tries++ {
@@ -531,18 +523,16 @@ func judgeValid(r *mon.Run, t *trcPlan, variant string) {
 func judgeInvalid(r *mon.Run, t *trcPlan, m mutator) {
 	p := t.p
 	rules, _ := payloadViolations(p)
+	if !contains(rules, m.rule) {
+		panic(fmt.Sprintf("harness: mutator %s/%s does not break its rule (model: %v)", m.rule, m.variant, rules))
+	}
 	want := append([]string{m.rule}, m.extra...)
 	for _, x := range rules {
-		found := false
-		for _, w := range want {
-			found = found || w == x
+		if !contains(want, x) {
+			// the plan at hand broke a second rule as well: not a single-rule case
+			r.Inconclusive("mutator-not-isolated")
+			return
 		}
-		if !found {
-			panic(fmt.Sprintf("harness: mutator %s/%s also breaks %v", m.rule, m.variant, rules))
-		}
-	}
-	if len(rules) == 0 || !contains(rules, m.rule) {
-		panic(fmt.Sprintf("harness: mutator %s/%s does not break its rule (model: %v)", m.rule, m.variant, rules))
 	}
 	der, derErr := p.DER()
 	key := "C33:" + m.rule
@@ -550,6 +540,7 @@ func judgeInvalid(r *mon.Run, t *trcPlan, m mutator) {
 	if m.variant != "" {
 		cls += "/" + m.variant
 	}
+	r.Class(cls)
 	wit := func(path, got string) c33Witness {
 		w := c33Witness{Rule: m.rule, Variant: m.variant, Path: path, Plan: describe(p), ModelSays: rules, Got: got}
 		if derErr == nil {
@@ -731,19 +722,13 @@ func checkC33(r *mon.Run) {
 
 	c33Observations(r, e)
 
-	var need []string
-	seen := map[string]bool{}
 	for _, m := range ms {
-		if !seen[m.rule] {
-			seen[m.rule] = true
-		}
 		k := "violation/" + m.rule
 		if m.variant != "" {
 			k += "/" + m.variant
 		}
-		need = append(need, k)
+		r.RequireClasses(k)
 	}
-	_ = need
 	r.Require(int64(n)*4, 60, "valid_validate", "valid_decode", "roundtrip", "invalid_validate", "invalid_decode", "rejected")
 }
 
